@@ -40,6 +40,29 @@ func runC05(r *fw.Run, p *fw.Program) {
 		runC03(sc, p)
 		r.Import(sc, "C03.rebase", "C05.rebase", "decode(): every value decoded through a sub-reader window gets its range rebased and its RootReader set to the enclosing reader unconditionally, so Range and RootReader always refer to the same buffer (C03.rebase obligations except the recorded nested-roots finding)", 5,
 			func(k string) bool { return k != "decode:nested-roots-rebased" })
+		// the Range a compound is converted with is the span of its own buffer's children: postProcess folds
+		// exactly the non-root, non-synthetic children (a nested root's Range is a position in ANOTHER buffer),
+		// nested compound roots are marked IsRoot before their fields are added and are post-processed even
+		// when the callback fails, and MinMax/Stop are the span arithmetic (borrowed from C03.post/sub/minmax)
+		const spanDesc = "the Range a compound value is converted with is the span of the fields of its own buffer: postProcess folds every child except roots of other buffers and synthetic values with ranges.MinMax = {min start, max stop - min start}; nested compound roots are marked IsRoot before their fields are decoded and get their range from a deferred postProcess"
+		r.Import(sc, "C03.post", "C05.span", spanDesc, 8, func(k string) bool {
+			switch k {
+			case "postProcess:walk-post-order-one-root", "postProcess:fold-shape", "postProcess:first-child-only", "postProcess:every-child-counted", "postProcess:other-buffer-excluded":
+				return true
+			}
+			return false
+		})
+		r.Import(sc, "C03.sub", "C05.span", spanDesc, 8, func(k string) bool {
+			return strings.HasSuffix(k, ":root-before-fn") || strings.HasSuffix(k, ":postprocess-deferred")
+		})
+		r.Import(sc, "C03.minmax", "C05.span", spanDesc, 8, nil)
+	}
+	// the root value yields the WHOLE input: its Range spans the decoded range only because gap fields are added
+	// over {0, decodeRange.Len} on every path of decode() that returns a value (borrowed from C04.path)
+	{
+		sc := r.Scratch()
+		runC04(sc, p)
+		r.Import(sc, "C04.path", "C05.cover", "decode(): with FillGaps (every root) each path returning a value has run d.FillGaps over {0, decodeRange.Len} of the returned decoder before the ranges are rebased, so the root's Range — what tobytes of the root reads — covers every bit it was given (C04.path obligations)", 10, nil)
 	}
 	r.Assumption("C05: bit-exactness of bitio.SectionReader/MultiReader/IOReader/LimitReader is decided under C01; Value.Range being the range the decoder actually read is C03/C04")
 }
@@ -165,7 +188,7 @@ func c05PkgFns(p *fw.Program, rel string) []*ssa.Function {
 
 // c05Prov returns whether InnerRange distinguishes parentless roots ("form B").
 func c05Prov(r *fw.Run, p *fw.Program) (formB bool) {
-	ru := r.Rule("C05.prov", "a decode value becomes Binary{br: dv.RootReader, r: dv.InnerRange(), unit: 8} (never dv.Range, no alternative arm), synthetic values are rejected; InnerRange is {0,Range.Len} exactly for nested roots and Range otherwise; every Binary built over a value's RootReader uses that value's InnerRange; files and plain values enter through NewBinaryFromBitReader(br,8,0); _decode decodes toBinary's reader and range as a gap-filled root", 12)
+	ru := r.Rule("C05.prov", "a decode value becomes Binary{br: dv.RootReader, r: dv.InnerRange(), unit: 8} (never dv.Range, no alternative arm), synthetic values are rejected; InnerRange is {0,Range.Len} exactly for nested roots and Range otherwise; every Binary built over a value's RootReader uses that value's InnerRange; files and plain values enter through NewBinaryFromBitReader(br,8,0); _decode decodes toBinary's reader and range as a gap-filled root; the keys ._bits/._bytes are that binary with unit 1/8, no padding, never for a synthetic value", 16)
 
 	// (1) decodeValueBase.ToBinary
 	if fn := c05Anchor(ru, p, "(pkg/interp.decodeValueBase).ToBinary"); fn != nil {
@@ -259,6 +282,9 @@ func c05Prov(r *fw.Run, p *fw.Program) (formB bool) {
 			ru.Check(fields["r"] == want, key, p.Rel(st.Pos()), "range is InnerRange() of the value whose RootReader is used",
 				"Binary over "+e.Of(dv)+".RootReader uses range "+fields["r"]+" instead of "+want+
 					": for a nested root Range.Start is a position in the parent buffer, not in RootReader")
+			if fw.ShortFn(fn) == "(pkg/interp.decodeValueBase).JQValueKey" {
+				c05ValueKey(ru, p, fn, e, st, fields)
+			}
 		})
 	}
 	if n == 0 {
@@ -437,7 +463,7 @@ func c05Range(r *fw.Run, p *fw.Program) {
 // C05.rootbase
 
 func c05RootBase(r *fw.Run, p *fw.Program, formB bool) {
-	ru := r.Rule("C05.rootbase", "RootReader/Range base agreement: decode() rebases every value by decodeRange.Start and points it at the unsliced reader; a root decoded with IsRoot (whose Start InnerRange drops) is decoded from offset 0 of its own reader; nested-root constructors store the nested reader; sub-formats decode d.bitBuf; every other Value.RootReader store is d.bitBuf", 24)
+	ru := r.Rule("C05.rootbase", "RootReader/Range base agreement: decode() rebases every value by decodeRange.Start and points it at the unsliced reader; a root decoded with IsRoot (whose Start InnerRange drops) is decoded from offset 0 of its own reader; nested-root constructors store the nested reader; sub-formats decode d.bitBuf; every other Value.RootReader store is d.bitBuf; the walk's stores are unconditional; a raw nested root has exactly the length of its reader; a caller of decode() only places Range.Start of a nested root and keeps Range.Len/RootReader; AddChild gives every value its Parent (InnerRange tells nested from top-level roots by it)", 33)
 
 	dec := c05Anchor(ru, p, "pkg/decode.decode")
 	decW := c05Anchor(ru, p, "pkg/decode.Decode")
@@ -498,6 +524,7 @@ func c05RootBase(r *fw.Run, p *fw.Program, formB bool) {
 					ru.Check(rd == "P0->bitBuf", key2, p.Rel(c.Pos()), "sub-format decodes d.bitBuf",
 						"a sub-format in the same buffer must be decoded from d.bitBuf (its values' RootReader), got "+rd)
 				}
+				c05DecodeResultStores(ru, p, fn, e, c, isRoot == "true", fmt.Sprintf("decode-result:%s#%d", fw.ShortFn(fn), k))
 			}
 		}
 	}
@@ -506,6 +533,7 @@ func c05RootBase(r *fw.Run, p *fw.Program, formB bool) {
 	if dec != nil {
 		c05DecodeTail(ru, p, dec)
 	}
+	c05AddChildParent(ru, p, formB)
 
 	// (c)+(d) stores to Value.IsRoot / Value.RootReader in pkg/decode
 	for _, fn := range c05PkgFns(p, "pkg/decode") {
@@ -572,7 +600,9 @@ func c05RootBase(r *fw.Run, p *fw.Program, formB bool) {
 					if ln == "" && strings.Contains(fields["Range"], "Len:") {
 						ln = fields["Range"]
 					}
-					good := fok && strings.HasPrefix(rd, "P") && !strings.ContainsAny(rd, "->.(") && strings.Contains(ln, "internal/bitiox.Len("+rd+")#0")
+					wantLen := "internal/bitiox.Len(" + rd + ")#0"
+					lenOK := ln == wantLen || strings.Contains(ln, "Len:"+wantLen+",") || strings.Contains(ln, "Len:"+wantLen+"}")
+					good := fok && strings.HasPrefix(rd, "P") && !strings.ContainsAny(rd, "->.(") && lenOK
 					ru.Check(good, key, p.Rel(st.Pos()), "raw nested root: RootReader = br, Range.Len = Len(br)",
 						"a nested root must carry its own reader and that reader's length (RootReader="+rd+", Range="+fields["Range"]+ln+")")
 				default:
@@ -684,6 +714,7 @@ func c05DecodeTail(ru *fw.Rule, p *fw.Program, dec *ssa.Function) {
 	// cell holding parameter br
 	var brCell, drCell, mmCell ssa.Value
 	okReader, okRebase := false, false
+	condStore, condRebase := false, false
 	var descReader, descRebase string
 	ce := fw.NewSymEnv(cl)
 	fw.EachInstr(cl, func(ins ssa.Instruction) {
@@ -693,6 +724,10 @@ func c05DecodeTail(ru *fw.Rule, p *fw.Program, dec *ssa.Function) {
 		}
 		if x, ok := c05FieldAddr(st.Addr, "pkg/decode", "Value", "RootReader"); ok {
 			descReader = ce.Of(st.Val)
+			if !c05StoreUnconditional(cl, st) {
+				descReader += " (only on some paths)"
+				condStore = true
+			}
 			if a := loadOf(st.Val); a != nil && x == ssa.Value(cl.Params[0]) {
 				if b := binding(a); b != nil {
 					brCell = b
@@ -703,6 +738,10 @@ func c05DecodeTail(ru *fw.Rule, p *fw.Program, dec *ssa.Function) {
 		if fa, ok := st.Addr.(*ssa.FieldAddr); ok && fieldNameOf(fa.X.Type(), fa.Field) == "Start" {
 			if x, ok := c05FieldAddr(fa.X, "pkg/decode", "Value", "Range"); ok && x == ssa.Value(cl.Params[0]) {
 				descRebase = ce.Of(st.Val)
+				if !c05StoreUnconditional(cl, st) {
+					descRebase += " (only on some paths)"
+					condRebase = true
+				}
 				if bo, ok := st.Val.(*ssa.BinOp); ok && bo.Op == token.ADD {
 					for _, pair := range [][2]ssa.Value{{bo.X, bo.Y}, {bo.Y, bo.X}} {
 						if ce.Of(pair[0]) != "P0->Range.Start" {
@@ -739,9 +778,9 @@ func c05DecodeTail(ru *fw.Rule, p *fw.Program, dec *ssa.Function) {
 			okReader = n == 1 && good
 		}
 	}
-	ru.Check(okReader, "decode:walk-rootreader", p.Rel(cl.Pos()), "every decoded value gets RootReader = br (the unsliced reader)",
+	ru.Check(okReader && !condStore, "decode:walk-rootreader", p.Rel(cl.Pos()), "every decoded value gets RootReader = br (the unsliced reader)",
 		"the walk in decode() must set v.RootReader to decode's reader parameter br, got "+descReader)
-	ru.Check(okRebase, "decode:walk-rebase", p.Rel(cl.Pos()), "every decoded value gets Range.Start += decodeRange.Start",
+	ru.Check(okRebase && !condRebase, "decode:walk-rebase", p.Rel(cl.Pos()), "every decoded value gets Range.Start += decodeRange.Start",
 		"the walk in decode() must rebase v.Range.Start by decodeRange.Start (the values were decoded relative to the sliced reader), got "+descRebase)
 	if !okRebase {
 		return
